@@ -183,6 +183,7 @@ inline bool known_open(const std::string& key) { return opts().open_findings.cou
 struct CaseState {
     bool want_desc = false;
     bool in_child = false;
+    bool stats = true;  // false while shrinking/replaying: those executions are not part of the evidence counts
     std::set<uint64_t>* seen = nullptr;
 };
 inline CaseState& cs() {
@@ -197,7 +198,7 @@ inline void describe(const std::string& s) {
 
 inline void count(const std::string& name, uint64_t by = 1) {
     Shared* sh = shared();
-    if (!sh) return;
+    if (!sh || !cs().stats) return;
     static std::map<std::string, size_t> idx;  // per-process cache
     auto it = idx.find(name);
     if (it == idx.end()) {
@@ -220,7 +221,7 @@ inline void count(const std::string& name, uint64_t by = 1) {
 // Mark the current case as non-trivial (by the property's stated rule); h identifies the case.
 inline void nontrivial(uint64_t h) {
     Shared* sh = shared();
-    if (!sh) return;
+    if (!sh || !cs().stats) return;
     count("nontrivial");
     if (cs().seen && !cs().seen->insert(h).second) return;
     if (sh->n_hashes < MAX_HASHES) sh->hashes[sh->n_hashes++] = h;
@@ -334,6 +335,21 @@ class Src {
 };
 
 using Property = std::function<void(Src&)>;
+
+// hand-written regression scenarios (witnesses of fixed findings etc.), addressed by name from replay files
+//   vpbuiltin 1 <PROP> <unit>
+//   name <scenario>
+inline std::map<std::string, std::function<void()>>& builtins() {
+    static std::map<std::string, std::function<void()>> m;
+    return m;
+}
+struct BuiltinReg {
+    BuiltinReg(const char* name, std::function<void()> fn) { builtins()[name] = std::move(fn); }
+};
+#define VP_BUILTIN(ident) \
+    static void vp_builtin_##ident(); \
+    static ::vp::BuiltinReg vp_builtin_reg_##ident{#ident, vp_builtin_##ident}; \
+    static void vp_builtin_##ident()
 
 // ---------------------------------------------------------------- json helpers
 
@@ -605,6 +621,7 @@ inline ChildOutcome run_sequence(const Property& prop, const std::vector<uint64_
             sh->n_choices = 0;
             sh->heartbeat++;
             cs().want_desc = wantdesc;
+            cs().stats = false;
             Src src{seq};
             return run_one_in_process(prop, src);
         },
@@ -770,6 +787,36 @@ inline bool read_replay(const std::string& path, std::string& sig, std::vector<u
 
 inline int replay_main(const Property& prop) {
     init_shared();
+    {
+        std::ifstream f(opts().replay);
+        std::string first, line, name;
+        std::getline(f, first);
+        if (first.rfind("vpbuiltin", 0) == 0) {
+            while (std::getline(f, line)) {
+                if (line.rfind("name ", 0) == 0) name = line.substr(5);
+            }
+            auto it = builtins().find(name);
+            if (it == builtins().end()) {
+                std::fprintf(stderr, "unknown builtin scenario '%s'\n", name.c_str());
+                return 2;
+            }
+            std::string errpath = opts().out.empty() ? "" : opts().out + ".stderr";
+            ChildOutcome o = run_child(
+                [&]() -> int {
+                    cs().stats = false;
+                    cs().want_desc = true;
+                    Src dummy{std::vector<uint64_t>{}};
+                    return run_one_in_process([&](Src&) { it->second(); }, dummy);
+                },
+                opts().case_timeout * 3, errpath);
+            if (o.kind == ChildOutcome::ok) {
+                std::printf("REPLAY pass file=%s\n", opts().replay.c_str());
+                return 0;
+            }
+            std::printf("REPLAY fail file=%s kind=%d sig=%s msg=%s\n", opts().replay.c_str(), static_cast<int>(o.kind), o.sig.c_str(), o.msg.c_str());
+            return 1;
+        }
+    }
     std::string sig;
     std::vector<uint64_t> seq;
     if (!read_replay(opts().replay, sig, seq)) {
